@@ -104,14 +104,17 @@ class Ctx(object):
 
 
 def guard(ctx, case, what, fn, *a, **k):
-    passthrough = k.pop("_passthrough", ())
-    """run a call into the code under test made by an oracle.  TraphException propagates (the caller decides whether
-    refusal is legal); any other exception raised *inside the tree under test* is a violation (clause 'exception');
+    """run a call into the code under test made by an oracle.  TraphException is a violation (clause 'refused') unless the
+    caller says refusal is legal (_refusal_ok); any other exception raised *inside the tree under test* is a violation (clause 'exception');
     an exception raised by the harness itself is a HarnessError (exit 2, never a VIOLATION)."""
+    passthrough = k.pop("_passthrough", ())
+    refusal_ok = k.pop("_refusal_ok", False)
     try:
         return fn(*a, **k)
-    except env.TraphException:
-        raise
+    except env.TraphException as e:
+        if refusal_ok:
+            raise
+        ctx.fail("refused", "%s was refused with the library's own error although the request is valid here: %r" % (what, e), case)
     except (Violation, HarnessError):
         raise
     except Exception as e:
@@ -157,6 +160,12 @@ class Case(object):
         self.flags.add(f)
 
     def call(self, what, fn, *a, **k):
+        """a call that must succeed: TraphException is a violation ('refused'), other exceptions from the tree too"""
+        return guard(self.ctx, self, what, fn, *a, **k)
+
+    def call_may_refuse(self, what, fn, *a, **k):
+        """a call for which the library's own TraphException is a legal outcome (it propagates to the caller)"""
+        k["_refusal_ok"] = True
         return guard(self.ctx, self, what, fn, *a, **k)
 
     # -- write ops ---------------------------------------------------------------------------------
